@@ -35,6 +35,8 @@ CLAUSE_TEXT = {
     "C18b_mixed": "the returned schedule is no pure version (stitched / unknown)",
     "C18c_lock_left": "zone_lock_idx still set when no transfer is in progress",
     "C18c_followup": "a fault-free follow-up get_schedule did not return the controller's schedule",
+    "C18c_cancelled_by_another_transfer": "a transfer that nobody cancelled ended with CancelledError (another transfer's "
+                                          "abandonment took it down)",
 }
 
 
@@ -140,6 +142,27 @@ def bump_sweep() -> list[dict]:
             h = [["heard6", 0, 0, 0, 0, 0, -1], ["start", 1, z, 0, 0, 0, -1], ["bump", z, 0, 0, 0, 1, n],
                  ["start", 2, z, 0, 0, 1, -1], ["fu", z, 0, 0, 0, 0, -1]]
             out.append({"zones": [1, 2], "h": h})
+    return out
+
+
+def concurrent_sweep() -> list[dict]:
+    """Two zones that already hold a schedule re-read at the same moment (forced, or after the cached counter has
+    aged), one of them with a fault at each of its first exchanges: version reads happen *before* the lock is
+    taken, so this is where two transfers wait on the controller at once.  The other transfer has no fault on its
+    own path and must end normally."""
+    out = []
+    for bad, good in ((1, 2), (2, 1)):
+        for fault in ("timeout", "cancel", "lost", "rlost"):
+            for n in range(0, 4):
+                for force_bad, force_good in ((1, 1), (1, 0), (0, 1)):
+                    h = [["start", 1, bad, 0, 0, 0, -1], ["start", 2, good, 0, 0, 1, -1],
+                         ["start", 3, bad, 0, force_bad, 2, -1], ["start", 4, good, 0, force_good, 2, -1],
+                         [fault, 3, n, 0, 0, 0, 0], ["fu", 1, 0, 0, 0, 0, -1], ["fu", 2, 0, 0, 0, 0, -1]]
+                    out.append({"zones": [1, 2], "h": h})
+                h = [["start", 1, bad, 0, 0, 0, -1], ["start", 2, good, 0, 0, 1, -1], ["age", 0, 0, 0, 0, 2, -1],
+                     ["start", 3, bad, 0, 0, 2, -1], ["start", 4, good, 0, 0, 2, -1],
+                     [fault, 3, n, 0, 0, 0, 0], ["fu", 1, 0, 0, 0, 0, -1], ["fu", 2, 0, 0, 0, 0, -1]]
+                out.append({"zones": [1, 2], "h": h})
     return out
 
 
@@ -250,6 +273,7 @@ def main(tier: str, replay: str | None) -> None:
         enum = enum[:cap]
     scen += [("enumerate", s) for s in enum]
     scen += [("bump-sweep", s) for s in bump_sweep()]
+    scen += [("concurrent-sweep", s) for s in concurrent_sweep()]
     # transparent-fault variants (slow / duplicated replies) of a sample
     base = [s for _, s in scen]
     for s in rnd.sample(base, min(len(base), 120 if quick else 2000)):
